@@ -936,7 +936,8 @@ class Interp:
                 self.setitem(d, self.eval(k, env, module), self.eval(v, env, module))
             return d
         if T is ast.Set:
-            return VSet([self.eval(x, env, module) for x in e.elts])
+            # through the library constructor: members that may be equal on some paths are de-duplicated by forking
+            return self.call(self.lib.builtin('set'), [VList([self.eval(x, env, module) for x in e.elts])], {})
         if T is ast.BinOp:
             return self.binop(e.op, self.eval(e.left, env, module), self.eval(e.right, env, module))
         if T is ast.UnaryOp:
@@ -1023,7 +1024,7 @@ class Interp:
             out = []
             self.comprehension(e.generators, 0, env, module, lambda env2: out.append(self.eval(e.elt, env2, module)))
             if T is ast.SetComp:
-                return VSet(out)
+                return self.call(self.lib.builtin('set'), [VList(out)], {})
             return VList(out) if T is ast.ListComp else GenV(iter(out))
         if T is ast.DictComp and len(e.generators) == 1 and not e.generators[0].ifs:
             src = self.eval(e.generators[0].iter, env, module)
@@ -1497,12 +1498,27 @@ class Interp:
             if isinstance(a, Sym) or isinstance(b, Sym):
                 x, y = self.int_term(a), self.int_term(b)
                 return _simp({ast.Lt: x < y, ast.LtE: x <= y, ast.Gt: x > y, ast.GtE: x >= y}[T])
-            if isinstance(a, (int, float, str, tuple)) and isinstance(b, (int, float, str, tuple)):
+            if isinstance(a, (tuple, VList)) and type(a) is type(b):
+                # lexicographic order of sequences (members may be symbolic)
+                xs = list(a) if isinstance(a, tuple) else a.items
+                ys = list(b) if isinstance(b, tuple) else b.items
+                strict = ast.Lt() if T in (ast.Lt, ast.LtE) else ast.Gt()
+                res = (len(xs) <= len(ys)) if T is ast.LtE else (len(xs) < len(ys)) if T is ast.Lt else (len(xs) >= len(ys)) if T is ast.GtE else (len(xs) > len(ys))
+                for x, y in reversed(list(zip(xs, ys))):
+                    e = self.eq(x, y)
+                    lt = self.compare(strict, x, y)
+                    # res := lt or (e and res)
+                    res = self.or_(lt, self.and_(e, res))
+                return res if isinstance(res, bool) else _simp(res)
+            if isinstance(a, (int, float, str)) and isinstance(b, (int, float, str)):
                 return {ast.Lt: a < b, ast.LtE: a <= b, ast.Gt: a > b, ast.GtE: a >= b}[T]
-            if isinstance(a, VSet) and isinstance(b, VSet):
-                sub = all(self.contains(b, x) is True for x in a.items)
-                if T is ast.LtE:
-                    return sub
+            if isinstance(a, VSet) and isinstance(b, VSet) and T is ast.LtE:
+                r = True
+                for x in a.items:
+                    r = self.and_(r, self.contains(b, x))
+                    if r is False:
+                        return False
+                return r
         raise Unsupported(f'compare {T.__name__} on {type(a).__name__},{type(b).__name__}')
 
     def is_(self, a, b):
@@ -1818,12 +1834,19 @@ class Interp:
             if isinstance(b, VList) and isinstance(a, int) and T is ast.Mult:
                 return VList(b.items * a)
             if isinstance(a, VSet) and isinstance(b, VSet):
+                def inside(x):
+                    c = self.contains(b, x)          # members that are equal only on some paths: fork
+                    return c if isinstance(c, bool) else self.ctx.choose(self.as_bool_term(c))
                 if T is ast.Sub:
-                    return VSet([x for x in a.items if self.contains(b, x) is not True])
+                    r = VSet()
+                    r.items = [x for x in a.items if not inside(x)]
+                    return r
                 if T is ast.BitOr:
-                    return VSet(a.items + b.items)
+                    return self.call(self.lib.builtin('set'), [VList(a.items + b.items)], {})
                 if T is ast.BitAnd:
-                    return VSet([x for x in a.items if self.contains(b, x) is True])
+                    r = VSet()
+                    r.items = [x for x in a.items if inside(x)]
+                    return r
             if isinstance(a, VDict) and isinstance(b, VDict) and T is ast.BitOr:
                 d = VDict(a.d)
                 d.d.update(b.d)
